@@ -17,9 +17,26 @@ type printer struct {
 	probes []ProbeInfo
 	wrap   bool
 	pfx    string // "P<id>"
+	nargs  int    // directive arguments rendered so far
+	errAt  int    // which of them mentions the user's variable err (0: none)
 }
 
 func (pr *printer) probe(what, expr string) string {
+	// One argument of the directive (the errAt-th in source order) mentions
+	// the enclosing function's variable err. For arguments whose value steers
+	// the directive the value itself depends on which err was seen, so the
+	// property the argument belongs to notices a capture as well.
+	pr.nargs++
+	if pr.errAt != 0 && pr.nargs == pr.errAt {
+		switch what {
+		case "continue-on-error":
+			expr = fmt.Sprintf("rt.Pick(h, 0, err == rt.ErrMark, %s, !(%s))", expr, expr)
+		case "concurrency":
+			expr = fmt.Sprintf("rt.Pick(h, 0, err == rt.ErrMark, %s, (%s)+1)", expr, expr)
+		default:
+			expr = fmt.Sprintf("rt.Seen(h, 0, err == rt.ErrMark, %s)", expr)
+		}
+	}
 	if !pr.wrap {
 		return expr
 	}
@@ -455,12 +472,15 @@ func (pr *printer) flow(f *FlowP) string {
 	// tasks keep their relative listing order (that is the abstract listing);
 	// everything else is shuffled among them
 	rng.Shuffle(len(items), func(i, j int) { items[i], items[j] = items[j], items[i] })
-	ctxExpr := "ctx"
 	if f.ErrIdent {
-		// a directive argument that mentions the user's variable named err
-		ctxExpr = "rt.Seen(h, 0, err == rt.ErrMark, ctx)"
+		// a directive argument that mentions the user's variable named err:
+		// the context (always present) in half of the programs, otherwise a later argument
+		pr.errAt = 1
+		if e := int(uint64(f.OptSeed) % 16); e >= 8 {
+			pr.errAt = e - 6
+		}
 	}
-	fb.WriteString("\terr = cff.Flow(" + pr.probe("ctx", ctxExpr))
+	fb.WriteString("\terr = cff.Flow(" + pr.probe("ctx", "ctx"))
 	seenInstrFlow := false
 	for _, it := range items {
 		if it.instrFlow {
@@ -693,11 +713,13 @@ func (pr *printer) par(p *ParP) string {
 		}})
 	}
 	rng.Shuffle(len(items), func(i, j int) { items[i], items[j] = items[j], items[i] })
-	ctxExpr := "ctx"
 	if p.ErrIdent {
-		ctxExpr = "rt.Seen(h, 0, err == rt.ErrMark, ctx)"
+		pr.errAt = 1
+		if e := int(uint64(p.OptSeed) % 16); e >= 8 {
+			pr.errAt = e - 6
+		}
 	}
-	fb.WriteString("\terr = cff.Parallel(" + pr.probe("ctx", ctxExpr))
+	fb.WriteString("\terr = cff.Parallel(" + pr.probe("ctx", "ctx"))
 	for _, it := range items {
 		fb.WriteString(",\n\t\t" + it.render())
 	}
